@@ -97,6 +97,8 @@ def _check(ctx: Ctx) -> None:
 
     # --- POS / ZERO / OVERLAP: the three comparisons that make notes well-formed
     compare_rules(ctx, fi)
+    ctx.floor("bookkeeping cases of quantise decided", qcase_rule(ctx, fi), 8)
+    ctx.floor("removal-pass obligations", remove_rule(ctx, fi), 8)
 
     # --- KEEP
     loop = message_loop(fi.node)
@@ -181,7 +183,39 @@ def compare_rules(ctx: Ctx, fi) -> None:
                     g = next((a for a in ancestors(c) if isinstance(a, ast.If)), None)
                     if g is not None and g in list(ast.walk(n)):
                         pos_sites.append((n.target.id, g, c))
+    ctx.floor("end-candidate filters (POS) in quantise", len(pos_sites), 1)
     for var, g, c in pos_sites:
+        # FALLBACK: when the filter leaves nothing, the note's own start is the only candidate (the note collapses and is removed)
+        loop_for = next(a for a in ancestors(c) if isinstance(a, ast.For) and isinstance(a.target, ast.Name) and a.target.id == var)
+        cand = src(call_method(c)[0])
+        blk = next((getattr(loop_for._parent, f) for f in ("body", "orelse") if loop_for in getattr(loop_for._parent, f, [])), [])
+        fb = [x for x in blk[blk.index(loop_for) + 1:] if isinstance(x, ast.If)
+              and any(isinstance(y, ast.Call) and call_method(y)[1] == "append" and src(call_method(y)[0]) == cand for z in x.body for y in ast.walk(z))]
+        okf = False
+        whyf = "no fallback found"
+        if fb:
+            t = fb[0].test
+            neg = False
+            while isinstance(t, ast.UnaryOp) and isinstance(t.op, ast.Not):
+                neg, t = not neg, t.operand
+            empty = None
+            if isinstance(t, ast.Compare) and isinstance(t.left, ast.Call) and isinstance(t.left.func, ast.Name) and t.left.func.id == "len" \
+                    and src(t.left.args[0]) == cand and isinstance(t.comparators[0], ast.Constant):
+                c0, op = t.comparators[0].value, type(t.ops[0])
+                if (op is ast.Eq and c0 == 0) or (op is ast.Lt and c0 == 1) or (op is ast.LtE and c0 == 0):
+                    empty = True
+                elif (op is ast.NotEq and c0 == 0) or (op is ast.Gt and c0 == 0) or (op is ast.GtE and c0 == 1):
+                    empty = False
+            elif isinstance(t, ast.Name) and t.id == cand:
+                empty = False
+            others = [a for a in (relation(g.test, nz)[0].atoms() if relation(g.test, nz) else []) if a != var]
+            app = next(y for z in fb[0].body for y in ast.walk(z) if isinstance(y, ast.Call) and call_method(y)[1] == "append")
+            okf = empty is not None and (empty != neg) and len(others) == 1 and app.args and src(app.args[0]) == others[0] and not fb[0].orelse
+            whyf = f"`{short(fb[0].test)}` -> `{short(app)}`"
+        ctx.check(okf, "ZERO", f"{FN}: when no end candidate is left the note's own start is used ({whyf})", function=FN,
+                  construct="fallback for an empty end-candidate list is missing, inverted, or not the note's start",
+                  message=f"{whyf}: with the test inverted every note with candidates also receives its start as a candidate (needless zero-length notes) "
+                          f"and an empty list stays empty", file=fi.file, node=fb[0] if fb else g)
         r = relation(g.test, nz)
         inside_body = any(c is x for y in g.body for x in ast.walk(y))
         if r is None:
@@ -210,6 +244,7 @@ def compare_rules(ctx: Ctx, fi) -> None:
                 ctx.check(ok, "ZERO", f"{FN}: a pair is removed iff its end does not lie after its start (`{short(g.test)}`)", function=FN,
                           construct="collapsed-note removal does not test end - start <= 0",
                           message=f"`{short(g.test)}`: zero-length notes would survive, or proper notes be removed", file=fi.file, node=g)
+    n_overlap = 0
     for g in [x for x in ast.walk(loop) if isinstance(x, ast.If) and isinstance(x.test, ast.BoolOp) and isinstance(x.test.op, ast.Or)]:
         parts = g.test.values
         notin = [v for v in parts if isinstance(v, ast.Compare) and isinstance(v.ops[0], ast.NotIn)]
@@ -219,9 +254,11 @@ def compare_rules(ctx: Ctx, fi) -> None:
             tatoms = [a for a in d.atoms() if a.endswith(".time")]
             oatoms = [a for a in d.atoms() if not a.endswith(".time")]
             ok = len(tatoms) == 1 and len(oatoms) == 1 and oatoms[0].endswith("[1]") and same_relation(rels[0], Sym.atom(tatoms[0]) - Sym.atom(oatoms[0]), ">=")
+            n_overlap += 1
             ctx.check(ok, "OVERLAP", f"{FN}: a note-on is accepted iff it does not start before the previous end of its key (`{short(g.test, 80)}`)", function=FN,
                       construct="overlap test is not `no previous note, or start >= previous end`",
                       message=f"`{short(g.test, 100)}`", file=fi.file, node=g)
+    ctx.floor("overlap tests (OVERLAP) in quantise", n_overlap, 1)
 
 
 def near_rule(ctx: Ctx, fi) -> None:
@@ -266,6 +303,20 @@ def near_rule(ctx: Ctx, fi) -> None:
     ctx.check(len(ceil_lists) == 1, "NEAR", f"{FN}: upper candidates are the lower candidate plus its step ({sorted(ceil_lists)})", function=FN,
               construct="upper grid candidates are not the lower candidate plus one step",
               message=f"{[short(c.value, 80) for c in comps]}: an event could be moved by more than one step", file=fi.file, node=comps[-1] if comps else fi.node)
+    # an index comprehension must visit every step size: range(len(steps)) / range(0, len(steps))
+    for name_, (c, fl) in ceil_lists.items():
+        it = c.value.generators[0].iter
+        if isinstance(it, ast.Call) and isinstance(it.func, ast.Name) and it.func.id == "range":
+            steps = floor_lists[fl][1]
+            a = it.args
+            full = (len(a) == 1 and src(a[0]) == f"len({steps})") or (len(a) == 2 and isinstance(a[0], ast.Constant) and a[0].value == 0 and src(a[1]) == f"len({steps})")
+            ctx.check(full and not c.value.generators[0].ifs, "NEAR", f"{FN}: upper candidates are computed for every step size (`{short(it)}`)", function=FN,
+                      construct="upper grid candidates are not computed for every step size",
+                      message=f"`{short(it)}`: a step size without its upper candidate can only round down", file=fi.file, node=c)
+    for name_, (c, steps) in floor_lists.items():
+        ctx.check(not c.value.generators[0].ifs and src(c.value.generators[0].iter) == step_param, "NEAR",
+                  f"{FN}: lower candidates are computed for every step size", function=FN,
+                  construct="lower grid candidates are not computed for every step size", message=short(c.value, 90), file=fi.file, node=c)
     # both lists feed the candidate set
     both = [s_ for s_ in loop.body if isinstance(s_, ast.Assign) and isinstance(s_.value, ast.BinOp) and isinstance(s_.value.op, ast.Add)
             and {n.id for n in ast.walk(s_.value) if isinstance(n, ast.Name)} >= (set(floor_lists) | set(ceil_lists))]
@@ -278,3 +329,222 @@ def _extra(ctx):
     check_wrappers(ctx, ['quantise'])
     from ..engines.structure import argmin_rule
     argmin_rule(ctx)
+
+
+# ------------------------------------------------------------------------------------------------ QCASE
+class _QCase(TypeCase):
+    """Per (kind, note open?, earlier note recorded?, would overlap?) execution of quantise's main loop with the tests on the
+    two bookkeeping tables decided by the case."""
+
+    def __init__(self, *a, opens: str, timings: str, is_open: bool, recorded: bool, overlaps: bool, **kw):
+        super().__init__(*a, **kw)
+        self.opens, self.timings = opens, timings
+        self.is_open, self.recorded, self.overlaps = is_open, recorded, overlaps
+
+    @staticmethod
+    def _base(e):
+        while isinstance(e, ast.Subscript):
+            e = e.value
+        return e.id if isinstance(e, ast.Name) else None
+
+    def truth(self, test, st):
+        if isinstance(test, ast.Compare) and len(test.ops) == 1:
+            op, c = test.ops[0], test.comparators[0]
+            if isinstance(op, (ast.In, ast.NotIn)) and isinstance(c, ast.Name):
+                neg = isinstance(op, ast.NotIn)
+                if c.id == self.opens:
+                    v = st.vals.get("$open", frozenset([self.is_open]))
+                    if len(v) == 1:
+                        return next(iter(v)) != neg
+                    return None
+                if c.id == self.timings:
+                    v = st.vals.get("$rec", frozenset([self.recorded]))
+                    if len(v) == 1:
+                        return next(iter(v)) != neg
+                    return None
+            # `<new time> < timings[key][1]` : the case says whether the new note would start before the recorded end
+            if isinstance(op, (ast.Lt, ast.GtE)) and self._base(c) == self.timings and ".time" in src(test.left):
+                return self.overlaps if isinstance(op, ast.Lt) else not self.overlaps
+            if isinstance(op, (ast.Gt, ast.LtE)) and self._base(test.left) == self.timings and ".time" in src(c):
+                return self.overlaps if isinstance(op, ast.Gt) else not self.overlaps
+        return super().truth(test, st)
+
+    def event_for_call(self, c, st):
+        recv, name = call_method(c)
+        if recv is not None and name == "pop" and self._base(recv) == self.opens:
+            st.vals["$open"] = frozenset([False])
+            return ("open-pop",)
+        if recv is not None and name == "append" and self._base(recv) == self.timings and isinstance(recv, ast.Subscript):
+            return ("timings-append", "msg.time" if c.args and isinstance(c.args[0], ast.Attribute) and c.args[0].attr == "time"
+                    and self.is_msg(c.args[0].value, st) else "other")
+        return super().event_for_call(c, st)
+
+    def stmt(self, s, st):
+        if isinstance(s, ast.Assign) and len(s.targets) == 1 and isinstance(s.targets[0], ast.Subscript):
+            t, v = s.targets[0], s.value
+            is_time = isinstance(v, ast.Attribute) and v.attr == "time" and self.is_msg(v.value, st)
+            if self._base(t) == self.opens:
+                self.scan_expr(v, st)
+                st.bump(("open-store", "msg.time" if is_time else "other"))
+                st.vals["$open"] = frozenset([True])
+                return st
+            if self._base(t) == self.timings:
+                self.scan_expr(v, st)
+                one = isinstance(v, ast.List) and len(v.elts) == 1 and isinstance(v.elts[0], ast.Attribute) and v.elts[0].attr == "time" \
+                    and self.is_msg(v.elts[0].value, st)
+                st.bump(("timings-reset", "[msg.time]" if one else "other"))
+                st.vals["$rec"] = frozenset([True])
+                return st
+        return super().stmt(s, st)
+
+
+def qcase_rule(ctx: Ctx, fi) -> int:
+    """QCASE: the bookkeeping of quantise as a table over (kind, open?, recorded?, overlap?)."""
+    p = ctx.p
+    loop = message_loop(fi.node)
+    out = output_list_name(fi.node)
+    if loop is None or out is None:
+        return 0
+    m = loop.target.id
+    aliases = {m} | {s.targets[0].id for s in loop.body if isinstance(s, ast.Assign) and isinstance(s.targets[0], ast.Name)
+                     and isinstance(s.value, ast.Name) and s.value.id == m}
+    # table roles: the dictionary popped in the NOTE_OFF branch = open notes; the one whose entries are lists = recorded spans
+    dicts = [s.targets[0].id for s in fi.node.body if isinstance(s, ast.Assign) and isinstance(s.targets[0], ast.Name) and s.lineno < loop.lineno
+             and ((isinstance(s.value, ast.Call) and isinstance(s.value.func, ast.Name) and s.value.func.id == "dict") or isinstance(s.value, ast.Dict))]
+    timings = next((d for d in dicts if any(isinstance(a, ast.Assign) and isinstance(a.targets[0], ast.Subscript) and isinstance(a.targets[0].value, ast.Name)
+                                             and a.targets[0].value.id == d and isinstance(a.value, ast.List) for a in ast.walk(loop))), None)
+    opens = next((d for d in dicts if d != timings and any(isinstance(c, ast.Call) and call_method(c)[1] == "pop" and isinstance(call_method(c)[0], ast.Name)
+                                                          and call_method(c)[0].id == d for c in ast.walk(loop))), None)
+    if timings is None or opens is None:
+        ctx.undetermined("QCASE", f"{FN}: bookkeeping tables", f"roles not recognised (open notes: {opens}, recorded spans: {timings}): not judged")
+        return 0
+    Z, ONE = (0, 0), (1, 1)
+    cases = [
+        # kind, open, recorded, overlaps, description, expectations
+        ("NOTE_ON", False, False, False, "a note-on of a pitch not seen before",
+         dict(kept=ONE, time_written=ONE, imputed_off=Z, open_pop=Z, open_store=ONE, rec_reset=ONE, rec_append=Z)),
+        ("NOTE_ON", False, True, False, "a note-on that starts at or after the recorded end of the previous note of its key",
+         dict(kept=ONE, time_written=ONE, imputed_off=Z, open_pop=Z, open_store=ONE, rec_reset=ONE, rec_append=Z)),
+        ("NOTE_ON", False, True, True, "a note-on that would start before the recorded end of the previous note of its key",
+         dict(kept=Z, imputed_off=Z, open_pop=Z, open_store=Z, rec_reset=Z, rec_append=Z)),
+        ("NOTE_ON", True, True, False, "a note-on of a key that is still open",
+         dict(kept=ONE, time_written=ONE, imputed_off=ONE, open_pop=ONE, open_store=ONE, rec_reset=ONE, rec_append=ONE)),
+        ("NOTE_OFF", True, True, False, "a note-off of an open note",
+         dict(kept=ONE, time_written=ONE, imputed_off=Z, open_pop=ONE, open_store=Z, rec_reset=Z, rec_append=ONE)),
+        ("NOTE_OFF", False, True, False, "a note-off whose note-on was dropped (nothing open)",
+         dict(kept=Z, imputed_off=Z, open_pop=Z, open_store=Z, rec_reset=Z, rec_append=Z)),
+        ("NOTE_OFF", False, False, False, "a note-off of a pitch never opened",
+         dict(kept=Z, imputed_off=Z, open_pop=Z, open_store=Z, rec_reset=Z, rec_append=Z)),
+        ("CONTROL_CHANGE", False, False, False, "an event that is not a note",
+         dict(kept=ONE, time_written=ONE, imputed_off=Z, open_pop=Z, open_store=Z, rec_reset=Z, rec_append=Z)),
+    ]
+    words = {"kept": "appends of the message to the result", "time_written": "writes of the message's time",
+             "imputed_off": "synthesised NOTE_OFFs appended to the result", "open_pop": "entries removed from the open-note table",
+             "open_store": "entries written to the open-note table (with the new time)", "rec_reset": "recorded span restarted as [new time]",
+             "rec_append": "ends appended to the recorded span (the new time)"}
+    n = 0
+    for T, is_open, rec, ov, what, want in cases:
+        tc = _QCase(p, fi, set(aliases), T, opens=opens, timings=timings, is_open=is_open, recorded=rec, overlaps=ov)
+        exits = tc.run_body(loop.body)
+
+        def ev(pred):
+            r = events_matching(exits, pred, kinds=("end", "continue"))
+            return r if r is not None else (0, 0)
+        got = {
+            "kept": ev(lambda e: e[0] == "append" and e[1] == out and e[2] == "msg"),
+            "time_written": ev(lambda e: e[0] == "attrstore" and e[1] == "msg" and e[2] == "time"),
+            "imputed_off": ev(lambda e: e[0] == "append" and e[1] == out and e[2] == "new:NOTE_OFF"),
+            "open_pop": ev(lambda e: e == ("open-pop",)),
+            "open_store": ev(lambda e: e == ("open-store", "msg.time")),
+            "rec_reset": ev(lambda e: e == ("timings-reset", "[msg.time]")),
+            "rec_append": ev(lambda e: e == ("timings-append", "msg.time")),
+        }
+        other = ev(lambda e: e in (("open-store", "other"), ("timings-reset", "other"), ("timings-append", "other")))
+        bad = {k: (got[k], v) for k, v in want.items() if got[k] != v}
+        if other != (0, 0):
+            bad["other"] = (other, (0, 0))
+        n += 1
+        ctx.check(not bad, "QCASE", f"{FN}: {what}: " + ", ".join(f"{k}={got[k]}" for k in want), function=FN,
+                  construct=f"quantise bookkeeping: {what} is not handled as required ({', '.join(sorted(bad))})" if bad else "ok",
+                  message="; ".join(f"{words.get(k, 'table writes with a value other than the new time')}: [min,max]={g}, required {w}" for k, (g, w) in bad.items()),
+                  file=fi.file, node=loop)
+    return n
+
+
+# ------------------------------------------------------------------------------------------------ REMOVE
+def remove_rule(ctx: Ctx, fi) -> int:
+    """REMOVE: the pass that deletes notes collapsed to zero length.  Decided per kind on the second message loop: a
+    NOTE_ON records (its index, its time) under its (channel, pitch) key; a NOTE_OFF takes that record out and schedules
+    both indices iff end - start <= 0 (ZERO); nothing else is recorded or scheduled; afterwards every scheduled index is
+    popped from the result with the running shift."""
+    from ..linear import Normaliser, Sym
+    p = ctx.p
+    main = message_loop(fi.node)
+    out = output_list_name(fi.node)
+    second = [n_ for n_ in fi.node.body if isinstance(n_, ast.For) and n_ is not main and n_.lineno > main.lineno and isinstance(n_.iter, ast.Call)
+              and isinstance(n_.iter.func, ast.Name) and n_.iter.func.id == "enumerate" and n_.iter.args and src(n_.iter.args[0]) == out]
+    if not second or not (isinstance(second[0].target, ast.Tuple) and len(second[0].target.elts) == 2):
+        ctx.undetermined("REMOVE", f"{FN}: zero-length removal pass", "no `for i, m in enumerate(result)` pass: idiom not recognised, not judged")
+        return 0
+    lp = second[0]
+    ivar, mvar = lp.target.elts[0].id, lp.target.elts[1].id
+    tables = [s.targets[0].id for s in fi.node.body if isinstance(s, ast.Assign) and isinstance(s.targets[0], ast.Name) and main.end_lineno < s.lineno < lp.lineno]
+    n = 0
+    sched = None
+    for T in ("NOTE_ON", "NOTE_OFF", "CONTROL_CHANGE", "TIME_SIGNATURE"):
+        tc = TypeCase(p, fi, {mvar}, T)
+        exits = tc.run_body(lp.body)
+        stores = events_matching(exits, lambda e: e[0] == "substore" and e[1] in tables) or (0, 0)
+        pops = events_matching(exits, lambda e: e[0] == "call" and e[1].endswith(".pop") and e[1].split(".")[0] in tables) or (0, 0)
+        adds = events_matching(exits, lambda e: e[0] == "append" and e[1] in tables) or (0, 0)
+        want = {"NOTE_ON": ((1, 1), (0, 0), (0, 0)), "NOTE_OFF": ((0, 0), (1, 1), (0, 1))}.get(T, ((0, 0), (0, 0), (0, 0)))
+        n += 1
+        ctx.check((stores, pops, adds) == want, "REMOVE", f"{FN}: removal pass, {T}: records {stores}, takes out {pops}, schedules {adds}", function=FN,
+                  construct=f"zero-length removal pass handles {T} wrongly",
+                  message=f"records [min,max]={stores}, take-outs={pops}, scheduling calls={adds}; required {want} "
+                          f"(a note-on is recorded once, a note-off takes the record out once and may schedule the pair, other kinds do nothing)",
+                  file=fi.file, node=lp)
+    # what is recorded / scheduled
+    for a in ast.walk(lp):
+        if isinstance(a, ast.Assign) and isinstance(a.targets[0], ast.Subscript) and isinstance(a.targets[0].value, ast.Name) and a.targets[0].value.id in tables:
+            v = a.value
+            okv = isinstance(v, ast.Tuple) and len(v.elts) == 2 and src(v.elts[0]) == ivar and src(v.elts[1]) == f"{mvar}.time"
+            n += 1
+            ctx.check(okv, "REMOVE", f"{FN}: a note-on is recorded as (its index, its time)", function=FN,
+                      construct="removal pass records something other than (index, time) for a note-on", message=short(a, 90), file=fi.file, node=a)
+        if isinstance(a, ast.Assign) and isinstance(a.value, ast.Call) and call_method(a.value)[1] == "pop" and isinstance(call_method(a.value)[0], ast.Name) \
+                and call_method(a.value)[0].id in tables and isinstance(a.targets[0], ast.Tuple) and len(a.targets[0].elts) == 2:
+            jvar, tvar = a.targets[0].elts[0].id, a.targets[0].elts[1].id
+            for c in ast.walk(lp):
+                if isinstance(c, ast.Call) and call_method(c)[1] in ("extend", "append") and isinstance(call_method(c)[0], ast.Name) and call_method(c)[0].id in tables:
+                    sched = call_method(c)[0].id
+                    arg = c.args[0] if c.args else None
+                    both = isinstance(arg, (ast.List, ast.Tuple)) and sorted(src(e) for e in arg.elts) == sorted([jvar, ivar]) and call_method(c)[1] == "extend"
+                    n += 1
+                    ctx.check(both, "REMOVE", f"{FN}: a collapsed note schedules both of its indices", function=FN,
+                              construct="removal pass does not schedule exactly the note-on's and the note-off's index",
+                              message=short(c, 90), file=fi.file, node=c)
+                    from ..astutil import path_conditions
+                    conds = [(t, h) for t, h in path_conditions(c, lp) if "message_type" not in src(t)]
+                    nz = Normaliser()
+                    from ..linear import relation, same_relation
+                    okg = len(conds) == 1 and conds[0][1] and same_relation(relation(conds[0][0], nz), Sym.atom(f"{mvar}.time") - Sym.atom(tvar), "<=")
+                    n += 1
+                    ctx.check(okg, "REMOVE", f"{FN}: the pair is scheduled iff end - recorded start <= 0", function=FN,
+                              construct="scheduling of a collapsed note is not guarded by exactly `end - start <= 0`",
+                              message=f"{[(short(t, 50), h) for t, h in conds]}", file=fi.file, node=c)
+    # the removal itself
+    sites = grid.shifted_pop_sites(fi.node)
+    n += 1
+    if not sites:
+        ctx.check(False, "REMOVE", f"{FN}: scheduled indices are removed from the result", function=FN,
+                  construct="scheduled indices are never removed from the result", message="zero-length notes stay in the sequence", file=fi.file, node=lp)
+        return n
+    for loop, L, call in sites:
+        tv = loop.target.elts if isinstance(loop.target, ast.Tuple) else []
+        nz = Normaliser()
+        okp = len(tv) == 2 and src(call_method(call)[0]) == out and call.args and nz.norm(call.args[0]) == Sym.atom(tv[1].id) - Sym.atom(tv[0].id) \
+            and sched is not None and sched in {x.id for x in ast.walk(L) if isinstance(x, ast.Name)}
+        ctx.check(okp, "REMOVE", f"{FN}: `{short(call)}` removes position (index - number already removed) from the result", function=FN,
+                  construct="shifted removal does not pop `index - shift` of the scheduled indices from the result", message=short(call, 80), file=fi.file, node=call)
+    return n
